@@ -169,11 +169,13 @@ def drive_spec(spec):
         with contextlib.redirect_stdout(io.StringIO()):
             # the same specification through the entry points a user has: the
             # dictionary, or an input file (plain or gzipped) as `panqec run` reads it
-            form = (len(json.dumps(spec)) + len(spec.get('runs', []))) % 3
+            import zlib
+            h = zlib.crc32(json.dumps(spec, sort_keys=True).encode())
+            form = h % 3
             if form == 0:
                 mine = copy.deepcopy(data)
                 batch = read_input_dict(mine, '/nonexistent/out.json', verbose=False)
-                if len(json.dumps(spec)) % 2 == 0:
+                if (h // 3) % 2 == 0:
                     # one specification object, a batch per output file: the
                     # second expansion must give the same simulations
                     batch = read_input_dict(mine, '/nonexistent/out2.json', verbose=False)
